@@ -5,9 +5,9 @@ SPEC = dict(
     cases_thorough=30000,
     shard=500,
     level="proof",
-    technique="Coq theorems over a Gallina model of Pool (is_pure byte + two u128 fields; views, checked_add_signed deltas, checked_apply_delta, the program's checked_cancel_amounts override and the trait's default used by the SDK pool) + differential correspondence on op histories of BOTH real implementations (program Pool built from its 48 raw bytes, SDK gmsol_programs Pool) evaluated inside Coq + arithmetic oracle on the Rust outputs",
-    text="For every stored total in u128 and every sequence of signed deltas on either side, both-side deltas and nettings: long view + short view = stored total (ceil/floor halves), a successful delta changes the total by exactly its amount and fails (pool unchanged) exactly when the total would leave u128, netting leaves total mod 2; the history theorem reduces a pure pool to a one-number ledger; the SDK pool is proved and observed to go through identical states on pure pools.",
-    level_note="Pure pools are taken well-formed (flag set, unused short field zero — the only way the program creates them: zeroed account + Pools::init); with a non-zero short field the views hit a debug_assert (modelled as Err 100 in debug builds, driven as rare 'malformed' cases, not constrained by the oracle). Reported for C40 (not a C15 violation): the SDK Pool has no checked_cancel_amounts override, so on TWO-token pools it fails with Error::Convert when min(long, short) > i128::MAX where the program succeeds (c15_sdk_cancel_impure_fails, witness long = u128::MAX, short = 2^127; reproduced on the real SDK code by the driver).",
+    technique="Coq theorems over a Gallina model of Pool (is_pure byte + two u128 fields; views, checked_add_signed deltas, checked_apply_delta, the checked_cancel_amounts override carried by both Pool types, and the trait's default for contrast) + differential correspondence on op histories of BOTH real implementations (program Pool built from its 48 raw bytes, SDK gmsol_programs Pool) evaluated inside Coq + arithmetic oracle on the Rust outputs",
+    text="For every stored total in u128 and every sequence of signed deltas on either side, both-side deltas and nettings: long view + short view = stored total (ceil/floor halves), a successful delta changes the total by exactly its amount and fails (pool unchanged) exactly when the total would leave u128, netting leaves total mod 2; the history theorem reduces a pure pool to a one-number ledger; the SDK pool is proved and observed to go through identical states on ALL pools (c15_sdk_eq_prog).",
+    level_note="Pure pools are taken well-formed (flag set, unused short field zero — the only way the program creates them: zeroed account + Pools::init); with a non-zero short field the views hit a debug_assert (modelled as Err 100 in debug builds, driven as rare 'malformed' cases, not constrained by the oracle). The SDK Pool carries the same checked_cancel_amounts override as the program since fix c40-sdk-pool-cancel-override (before, it ran the trait default, which fails with Error::Convert when min(long, short) > i128::MAX: c15_default_cancel_impure_fails; that old output is now a negative case).",
     design_ref="DESIGN.md section 6, C15",
     explanation="One case = one history (1-10 ops) on one pool value of the program's or the SDK's Pool type.",
 )
